@@ -22,6 +22,10 @@ struct async_worker_s {
     platform_event_t stop_event;
 };
 
+/* The state field is written by the worker thread and read by its owner: all accesses are atomic */
+#define WORKER_STATE_SET(w, v)  __atomic_store_n(&(w)->state, (v), __ATOMIC_RELEASE)
+#define WORKER_STATE_GET(w)     __atomic_load_n(&(w)->state, __ATOMIC_ACQUIRE)
+
 /* Thread-local storage for current worker */
 static __thread async_worker_t* tls_current_worker = NULL;
 
@@ -30,11 +34,11 @@ static void* worker_thread_proc(void* param) {
     async_worker_t* worker = (async_worker_t*)param;
     tls_current_worker = worker;
     
-    worker->state = ASYNC_WORKER_RUNNING;
+    WORKER_STATE_SET(worker, ASYNC_WORKER_RUNNING);
     
     void* result = worker->proc(worker->context);
     
-    worker->state = ASYNC_WORKER_STOPPED;
+    WORKER_STATE_SET(worker, ASYNC_WORKER_STOPPED);
     tls_current_worker = NULL;
     
     return result;
@@ -112,12 +116,12 @@ bool async_worker_join(async_worker_t* worker, int timeout_ms) {
         struct timespec sleep_time = { 0, 10000000 };  /* 10ms */
         int elapsed_ms = 0;
         
-        while (worker->state != ASYNC_WORKER_STOPPED && elapsed_ms < timeout_ms) {
+        while (WORKER_STATE_GET(worker) != ASYNC_WORKER_STOPPED && elapsed_ms < timeout_ms) {
             nanosleep(&sleep_time, NULL);
             elapsed_ms += 10;
         }
         
-        if (worker->state == ASYNC_WORKER_STOPPED) {
+        if (WORKER_STATE_GET(worker) == ASYNC_WORKER_STOPPED) {
             pthread_join(worker->thread, NULL);
             return true;
         }
@@ -136,7 +140,7 @@ bool async_worker_should_stop(async_worker_t* worker) {
 }
 
 async_worker_state_t async_worker_get_state(const async_worker_t* worker) {
-    return worker ? worker->state : ASYNC_WORKER_STOPPED;
+    return worker ? WORKER_STATE_GET(worker) : ASYNC_WORKER_STOPPED;
 }
 
 platform_event_t* async_worker_get_stop_event(async_worker_t* worker) {
